@@ -484,8 +484,22 @@ def C03(run):
     # store level: ApplyDeltasReverse restores the pre-block content (undo events of the store chains)
     _mc_store(run, "quick" if q else "thorough")
     _store_trace(run, "C03:")
+    # design level: Pipeline.tla (gate, undo signalling, client) under every fork history over 7-8 heights x 3 branches with up
+    # to 4-5 reorganisations, for a request whose start block cannot be reorganised away; with a start block ABOVE a junction the
+    # model has the counterexample of open finding D11 (required to still be there: the model transcribes the code as it is)
+    run.model_check("MCPipeline", "MCPipeline_safe.cfg" if q else "MCPipeline_thorough.cfg", workers=8, timeout=1800)
+    res = run.tlc("MCPipeline", "MCPipeline_d11.cfg", workers=2, timeout=300, expect_violation=True)
+    run.cov["design_level_open_finding_D11_reproduced"] = bool(res.get("invariant_violated"))
     # pipeline level: fork histories produced by the real bstream/forkable, through the real tier1 pipeline
-    _system_trace(run, "C03:", "forks", n=(24 if q else 1500))
+    trf, _ = _system_trace(run, "C03:", "forks", n=(24 if q else 1500))
+    if not q:
+        def mutf(r):
+            for m in r["obs"]["resp"]:
+                if m["kind"] == "data":
+                    m["id"] = m["id"] + "x"
+                    return
+        run.selftest("TraceSystem", trf, "fork-message-id", lambda r: r.get("ev") == "forkrun" and not r["obs"].get("err") and
+                     any(m["kind"] == "data" for m in r["obs"]["resp"]), mutf, start=lambda r: r.get("ev") == "prog", xss="512m")
     run.cov["rule"] = ("fork histories: random fork trees over 2..5 heights (1..2 branches per height, extra extensions, and 'ping-pong' "
                        "histories where two branches alternately overtake each other so that the same blocks are applied, undone, "
                        "re-applied and undone again), random parent-first arrival order and finality progress, turned into new / undo / "
